@@ -217,6 +217,12 @@ def run(ctx):
                 areqs.append((opn, [seq_, list(s_)]))
                 aimpl.append(("after", [opn, earlier, [seq_, list(s_)]]))
         diffs += correspond(ctx, "after-earlier-calls", areqs, impl_reqs=aimpl)
+        # nucleotide level: sequence and structure handed over as STRINGS (one character per position)
+        sreqs = []
+        for c_ in [c for c in small if "+" in c["sst"]][:: (3 if ctx.tier == "quick" else 1)] + rnd[:60]:
+            sq_ = ["+" if x == "+" else rng.choice("ACGT") for x in c_["sst"]]
+            sreqs.append(("rotate_complex_db", [sq_, list(c_["sst"])]))
+        diffs += correspond(ctx, "string-arguments", sreqs, impl_reqs=[("rotate_complex_db_str", r[1]) for r in sreqs])
     ctx.cov["rule"] = ("every well-formed structure with non-empty strands up to the tier's length bound (8 quick / 10 "
                        "thorough) with generated domain content, random structures up to 60 strands / depth 100, single "
                        "strands, disconnected and rotationally symmetric complexes, each through rotate_complex_once, "
@@ -231,6 +237,14 @@ def run(ctx):
     def search(diffs):
         from corr import after_witnesses
         pre = history_witnesses(diffs) + after_witnesses(diffs)
+        from common import run_impl as _ri
+        for d in [x for x in diffs if x[1][0] == "rotate_complex_db_str"][:10]:
+            a_, b_ = _ri([("rotate_complex_db", d[1][1]), ("rotate_complex_db_str", d[1][1])], jobs=1)
+            if a_ != b_:
+                pre.append({"key": {"string_args": d[1][1]}, "input": {"string_args": d[1][1]},
+                            "what": f"rotate_complex_db enumerates {b_!r} for string arguments and {a_!r} for the same complex as lists",
+                            "snippet": f"from dsdobjects.complex_utils import rotate_complex_db as f; s, t = {''.join(d[1][1][0])!r}, {''.join(d[1][1][1])!r}; "
+                                       "print(list(f(s, t)), list(f(list(s), list(t))))"})
         cases = []
         for c in diff_cases[:4]:
             def bad(c2):
@@ -259,6 +273,11 @@ def replay(data):
     if not inp:
         print("replay file names a broken proof/correspondence link only:", json.dumps(data.get("broken_links"))[:2000])
         return 1
+    if isinstance(inp, dict) and "string_args" in inp:
+        from common import run_impl
+        a_, b_ = run_impl([("rotate_complex_db", inp["string_args"]), ("rotate_complex_db_str", inp["string_args"])], jobs=1)
+        print(a_, b_)
+        return 1 if a_ != b_ else 0
     if isinstance(inp, dict) and "after" in inp:
         from common import run_impl
         name, earlier, args = inp["after"]
